@@ -33,11 +33,15 @@ fn layout(rng: &mut Rng, secs: &[(String, Vec<(String, String)>)], wild: bool) -
     let mut s = String::new();
     let junk = |rng: &mut Rng, s: &mut String| { match rng.below(6) { 0 => s.push('\n'), 1 => s.push_str(*rng.pick(&["# a comment line\n", "# r = x, y  # not a definition\n", "#\n"])), 2 => s.push_str("; another comment\n"), 3 => s.push_str("   \n"), _ => {} } };
     if wild { junk(rng, &mut s); }
-    for (name, kvs) in secs {
-        if wild { junk(rng, &mut s); }
+    // set when the previous section ended in a backslash: the header must follow at once (it is then read by the continuation
+    // loop, which takes it for the next section - the `multi1` shape of examples/testini.ini)
+    let mut glued = false;
+    for (si, (name, kvs)) in secs.iter().enumerate() {
+        if wild && !glued { junk(rng, &mut s); }
+        glued = false;
         let pad = if wild { " ".repeat(rng.below(3)) } else { String::new() };
         s.push_str(&format!("{}[{}]{}\n", pad, name, if wild && rng.chance(1, 3) { "  " } else { "" }));
-        for (k, v) in kvs {
+        for (ki, (k, v)) in kvs.iter().enumerate() {
             if wild { junk(rng, &mut s); }
             let eq = if wild { *rng.pick(&["=", " = ", "=  ", "  ="]) } else { " = " };
             let lead = if wild { " ".repeat(rng.below(3)) } else { String::new() };
@@ -51,6 +55,8 @@ fn layout(rng: &mut Rng, secs: &[(String, Vec<(String, String)>)], wild: bool) -
             // a value may end in a backslash when a comment or blank line follows: that line ends the value (a comment or blank
             // line is never part of a continued value — the reference implementation's reading, pinned by examples/testini.ini)
             let dangling = if wild && trailing.is_empty() && rng.chance(1, 6) { *rng.pick(&[" \\\n# a comment right after a trailing backslash\n", " \\\n\n", "\\\n; c\n", " \\\n   \n#\n"]) } else { "\n" };
+            // ... and the last value of a section may end in a backslash right before the next header
+            let dangling = if wild && trailing.is_empty() && dangling == "\n" && ki + 1 == kvs.len() && si + 1 < secs.len() && rng.chance(1, 5) { glued = true; *rng.pick(&[" \\\n", "\\\n", "  \\  \n"]) } else { dangling };
             s.push_str(&format!("{}{}{}{}{}{}", lead, k, eq, val, trailing, dangling));
         }
     }
